@@ -242,7 +242,7 @@ Proof.
     rewrite map_err_panic; try reflexivity.
   - now apply from_value_total.
   - exact IH.
-  - now apply from_value_total.
+  - destruct (is_numeric nl); [now apply from_value_total|reflexivity].
 Qed.
 
 Lemma default_from_meta_total F m :
@@ -319,7 +319,7 @@ Proof.
     rewrite map_err_ok; try discriminate.
   - unfold from_value; cbn. intros H. destruct (int_from_value_ok t i l v W H) as (z & ? & ? & _). eauto.
   - exact IH.
-  - unfold from_value; cbn. intros H. destruct (int_from_value_ok t i nl v W H) as (z & ? & ? & _). eauto.
+  - destruct (is_numeric nl); [|discriminate]. unfold from_value; cbn. intros H. destruct (int_from_value_ok t i nl v W H) as (z & ? & ? & _). eauto.
 Qed.
 
 (** No input whatsoever makes an integer target produce a value outside its range
